@@ -20,6 +20,10 @@ MUTANTS = [
     m("c14-rngs-in-stage-loop", "R1", "            per_chain_rngs = _get_per_chain_rngs(self.rng, n_chain)\n", "", ),
     m("c14-global-rng", "R2", "        return self.metric.sqrt @ rng.standard_normal(state.pos.shape)", "        return self.metric.sqrt @ np.random.standard_normal(state.pos.shape)", file="systems.py"),
     m("c14-unseeded-rng", "R2", "    rng = np.random.default_rng(seed)", "    rng = np.random.default_rng()", file="interop.py"),
+    m("c14-append-in-arrival-order", "R3", '            indexed_chain_outputs.sort(key=lambda indexed_output: indexed_output[0])\n            chain_outputs = [outp for _, outp, _ in indexed_chain_outputs]\n', "            chain_outputs = []\n            for _i, outp, _s in indexed_chain_outputs:\n                chain_outputs.append(outp)\n"),
+    m("c14-sorted-then-reversed-source", "R3", '            indexed_chain_outputs.sort(key=lambda indexed_output: indexed_output[0])\n            chain_outputs = [outp for _, outp, _ in indexed_chain_outputs]\n', "            ordered = sorted(indexed_chain_outputs, key=lambda t: t[0])\n            chain_outputs = [outp for _, outp, _ in indexed_chain_outputs]\n"),
+    m("c14-twin-sorted-call", None, '            indexed_chain_outputs.sort(key=lambda indexed_output: indexed_output[0])\n            chain_outputs = [outp for _, outp, _ in indexed_chain_outputs]\n', "            ordered = sorted(indexed_chain_outputs, key=lambda t: t[0])\n            chain_outputs = [outp for _, outp, _ in ordered]\n", twin=True),
+    m("c14-twin-index-addressed-store", None, '            indexed_chain_outputs.sort(key=lambda indexed_output: indexed_output[0])\n            chain_outputs = [outp for _, outp, _ in indexed_chain_outputs]\n', "            chain_outputs = [None] * len(indexed_chain_outputs)\n            for i, outp, _s in indexed_chain_outputs:\n                chain_outputs[i] = outp\n", twin=True),
     m("c14-no-sort", "R3", "            indexed_chain_outputs.sort(key=lambda indexed_output: indexed_output[0])\n", ""),
     m("c14-sort-wrong-key", "R3", "indexed_chain_outputs.sort(key=lambda indexed_output: indexed_output[0])", "indexed_chain_outputs.sort(key=lambda indexed_output: id(indexed_output[1]))"),
     m("c14-undo-F8-writeback", "R4", WB, ""),
